@@ -17,7 +17,7 @@ RULE = ('an ActiveObject with 0-3 timed sources (heart beats, 20-shot sources an
         '(inside/outside, sources, posters, context-switch sequence prefix) tuples')
 CASES = {'quick': 1200, 'thorough': 80000}
 BUDGET = {'quick': 150, 'thorough': 300}
-REQUIRE = {'runs': 500, 'stop_from_outside': 200, 'stop_from_handler': 150, 'runs_with_timed_sources': 300, 'stop_coincides_with_posting': 100, 'step_arms_timed_source_during_stop': 100,
+REQUIRE = {'runs': 400, 'stop_from_outside': 200, 'stop_from_handler': 150, 'runs_with_timed_sources': 300, 'stop_coincides_with_posting': 100, 'step_arms_timed_source_during_stop': 100,
            'application_thread_arms_source_around_stop': 100, 'application_armed_source_started_before_stop': 25, 'arming_call_held_by_injected_delay': 60, 'stop_call_held_by_injected_delay': 20, 'stop_called_after_the_thread_had_already_ended': 12, 'stop_called_by_a_handler_of_another_object': 40, 'stop_called_by_a_namesake_object': 20, 'runs_with_a_one_shot_source': 100}
 ASSUME = ['instantaneous-computation time model']
 ANNOUNCE_CASES = True
